@@ -11,9 +11,36 @@ for d, _, files in os.walk(acc):
     for f in files:
         if f.endswith(".go"):
             rep[os.path.join(repo, rel, "zz_verif_" + f)] = os.path.join(d, f)
+# Build-time source transforms (generated from the working tree on every run;
+# /repo is untouched). Each is a single-token substitution that does not change
+# behaviour on the harness inputs; if the token is not found the file is used
+# as it is (slower, still sound) and a note is printed to stderr.
+TRANSFORMS = [
+    # compact build allocates 4 x 79 MB scratch buffers per pass and zeroes them:
+    # ~5 s per build of a ten-feature world. Menu features encode to < 1 KB.
+    ("ingest/compact/build.go", "maxEncodedFeatureSize = 64 * 1024 * 1204", "maxEncodedFeatureSize = 1 << 20"),
+]
+lc = sys.argv[1] if len(sys.argv) > 1 else "all"
+xdir = os.path.join(root, ".build", "xform", lc)
+os.makedirs(xdir, exist_ok=True)
+mutant = {}
+if os.environ.get("VERIF_MUTANT_OVERLAY", ""):
+    mutant = json.load(open(os.environ["VERIF_MUTANT_OVERLAY"]))["Replace"]
+for rel, old, new in TRANSFORMS:
+    src = os.path.join(repo, rel)
+    text = open(mutant.get(src, src)).read()
+    if text.count(old) == 1:
+        out = os.path.join(xdir, rel.replace("/", "__"))
+        open(out, "w").write(text.replace(old, new))
+        rep[src] = out
+        mutant.pop(src, None)
+    else:
+        sys.stderr.write("mkoverlay: transform token not found in %s; using the file unchanged\n" % rel)
 # Demonstrations only: VERIF_MUTANT_OVERLAY names an overlay JSON that replaces
 # repository files by deliberately broken copies kept outside /repo.
 extra = os.environ.get("VERIF_MUTANT_OVERLAY", "")
 if extra:
-    rep.update(json.load(open(extra))["Replace"])
+    for k, v in json.load(open(extra))["Replace"].items():
+        if k not in rep or k in mutant:
+            rep[k] = v
 json.dump({"Replace": rep}, sys.stdout, indent=1)
